@@ -176,10 +176,16 @@ class Printer:
             return " \t \r\n "
         if r < 0.85:
             return " # a comment ; ) ] } \" \\( \n "
-        if r < 0.92:
+        if r < 0.90:
             return " # continued \\\n still comment ) \n"
-        if r < 0.97:
+        if r < 0.93:
             return " # even \\\\\n"
+        if r < 0.95:
+            # a backslash followed by a blank does not precede the newline: the comment ends here
+            return self.rng.choice([" # odd then blank \\ \n ", " # odd then tab \\\t\n", " # C:\\tmp\\  \n"])
+        if r < 0.97:
+            # three backslashes continue, and so does the continuation line if it ends with one
+            return " # three \\\\\\\n still ] comment \\\n and still } \n"
         return "\t#x\r\n"
 
     def j(self, *parts):
